@@ -112,9 +112,10 @@ async fn run_async(case: &Case, fx: &Fixture, vname: &str) -> CaseResult {
         Ok(p) => p,
         Err(e) => return CaseResult::discard(format!("planning: {:?}", err_class(&e))),
     };
-    let plan = match state.create_physical_plan(&logical).await {
-        Ok(p) => p,
-        Err(e) => return CaseResult::discard(format!("physical planning: {:?}", err_class(&e))),
+    let plan = match no_panic(state.create_physical_plan(&logical)).await {
+        None => return CaseResult::discard("physical planning of the original panics (outside this property)"),
+        Some(Ok(p)) => p,
+        Some(Err(e)) => return CaseResult::discard(format!("physical planning: {:?}", err_class(&e))),
     };
     let mut kinds = vec![];
     physical_kinds(&plan, &mut kinds);
@@ -136,9 +137,10 @@ async fn run_async(case: &Case, fx: &Fixture, vname: &str) -> CaseResult {
         Ok(b) => b,
         Err(e) => return CaseResult::discard(format!("encode: {}", err_key(&e))).labels(labels).label("encode-refused"),
     };
-    let original = match exec_physical(&a.ctx, plan.clone()).await {
-        Ok(x) => x,
-        Err(e) => return CaseResult::discard(format!("original plan fails to run: {:?}", err_class(&e))).labels(labels),
+    let original = match no_panic(exec_physical(&a.ctx, plan.clone())).await {
+        None => return CaseResult::discard("original plan panics while planning / running (outside this property)"),
+        Some(Ok(x)) => x,
+        Some(Err(e)) => return CaseResult::discard(format!("original plan fails to run: {:?}", err_class(&e))).labels(labels),
     };
     let b = match fx.session().await {
         Ok(s) => s,
